@@ -77,10 +77,10 @@ func (lex *Lexer) ungetCnt(n int) {
 	lex.te = lex.te - n
 }
 
+// bad (unget-spec): TrimRight takes a set of bytes, not a suffix
 func (lex *Lexer) ungetStr(s string) {
-	if strings.HasSuffix(string(lex.data[lex.ts:lex.te]), s) {
-		lex.ungetCnt(len(s))
-	}
+	t := string(lex.data[lex.ts:lex.te])
+	lex.ungetCnt(len(t) - len(strings.TrimRight(t, s)))
 }
 
 func (lex *Lexer) error(msg string) { lex.errs++ }
